@@ -163,7 +163,15 @@ def r3_visited_on_representative(ctx, F):
                               (strat, other), span=rc.span)
                 if fps:
                     fp = fps[0]
-                    ins = [c for (c, n_, s_) in cb.arb if noref(b.val(c.args[1])) == V('call', fp.bb)]
+                    # the key may be chosen by a `match symmetry { .. }`: on the path through the
+                    # representative it must be the representative's fingerprint
+                    from taint import origins
+                    ins = []
+                    for (c, n_, s_) in cb.arb:
+                        org = origins(b, c.args[1])
+                        if fp in org and all(not isinstance(o, (str, tuple)) and o.is_('fingerprint') and
+                                             (o is fp or not b.dominates(rc.bb, o.bb)) for o in org):
+                            ins.append(c)
                     ctx.check(len(ins) == 1, rule, 'visited-keyed-by-representative', b,
                               good='the visited set is keyed by the representative\'s fingerprint',
                               bad='%s: the representative\'s fingerprint does not key the visited-set insert' % strat,
@@ -184,33 +192,24 @@ def r3_visited_on_representative(ctx, F):
                 pathv = noref(tv.key[3][1]) if tv.kind == 'agg' and len(tv.key[3]) > 1 else None
                 pushes = [c for c in b.calls_to('Vec::push') if pathv is not None and noref(b.val(c.args[0])) == pathv]
                 last = [c for c in pushes if not b.in_cycle(c.bb) or True]
-                ok = False
+                from taint import origins
+                nfp = 0
                 bad_src = None
                 for c in pushes:
-                    v = noref(b.val(c.args[1]))
-                    if v.kind == 'local':
-                        srcs = []
-                        for d in b.defs.get(v.key, []):
-                            if d[1] == 'call':
-                                srcs.append(V('call', d[0]))
-                            elif d[2]['rv']['k'] == 'use':
-                                srcs.append(noref(b.val(d[2]['rv']['op'])))
-                        good = True
-                        for s_ in srcs:
-                            fc = b.call_at(s_.key) if s_.kind == 'call' else None
-                            if fc is None or not fc.is_('fingerprint') or noref(b.val(fc.args[0])) != sv:
-                                good = False
-                                bad_src = s_
-                        if srcs and good:
-                            ok = True
-                    elif v.kind == 'call':
-                        fc = b.call_at(v.key)
-                        if fc is not None and fc.is_('fingerprint') and noref(b.val(fc.args[0])) == sv:
-                            ok = True
+                    org = origins(b, c.args[1])
+                    if org and all(not isinstance(o, (str, tuple)) and o.is_('fingerprint') and
+                                   noref(b.val(o.args[0])) == sv for o in org):
+                        nfp += 1          # the successor's own fingerprint
+                    elif org and all(isinstance(o, tuple) and o[0] == 'proj' and o[1].is_('Iterator::next')
+                                     for o in org):
+                        pass              # copying the elements of the path so far
+                    else:
+                        bad_src = sorted(repr(o) for o in org)
+                ok = nfp >= 1 and bad_src is None
                 ctx.check(ok, rule, 'path-continues-with-original', b,
                           good='the fingerprint appended to the path is that of the un-canonicalised successor',
                           bad='DFS: the fingerprint appended to the path is not fingerprint(successor) on every '
-                              'definition (%r): the recorded path cannot be replayed' % bad_src)
+                              'definition (%r): the recorded path cannot be replayed' % (bad_src,))
                 sp = Spawn(F, 'DFS')
                 s = sp.b
                 reps2 = [c for c in s.indirect_calls() if noref(s.val(c.fnptr)).fields()[-1:] == ('.symmetry',) or
